@@ -637,6 +637,21 @@ fn c19_tree(t: &mut Tctx, owned: &OwnedDataModelType, origin: &str) {
             return;
         }
     }
+    // the primitive-or-not classifier used by renderers: total, and a struct / enum / seq / tuple is never primitive
+    match catch(|| postcard_schema::schema::fmt::is_prim(owned)) {
+        Ok(p) => {
+            t.st.count("is_prim_checked");
+            let compound = matches!(owned, OwnedDataModelType::Struct { .. } | OwnedDataModelType::Enum { .. } | OwnedDataModelType::Seq(_) | OwnedDataModelType::Tuple(_));
+            if p && compound {
+                t.st.violation("C19:is_prim-wrong", "is_prim reports a struct / enum / sequence / tuple as primitive".into(), rp());
+                return;
+            }
+        }
+        Err(p) => {
+            t.st.violation("C19:is_prim-panic", format!("is_prim panicked: {}", p), rp());
+            return;
+        }
+    }
     let used = match catch(|| owned.all_used_types()) {
         Ok(s) => s,
         Err(p) => {
